@@ -19,11 +19,12 @@ TIERS = {"quick": {"n": 1800}, "thorough": {"n": 15000, "exhaustive": True}}
 RULE = ("(base, ref1, ref2): absolute base URL with authority (optional userinfo/port/query/fragment; 5 % file:///-style with an empty authority and a non-empty path; path of 0-6 "
         "segments incl. '.', '..', '' and trailing slash) x references that are path-relative / path-absolute "
         "(0-7 segments over {., .., '', a, b, c;x, d:e, ..., .a, b., x=1, @, e-acute}; 1 in 12 is a run of '..' that reaches the root followed by an empty/dot tail), query-only, fragment-only, "
-        "empty, or absolute URLs; ref2 is applied to the result (chaining); each reference is passed as str, as URL(text) "
-        "or as a URL object assembled with from_parts; 15 % of the bases are rebuilt with URL.from_parts(path_parts without the leading '');  thorough adds every reference path of <= 4 segments over {., .., '', a, b} x 7 base shapes and of 5 segments over {., .., '', a} x 3 base shapes. "
+        "empty, or absolute URLs; ref2 is applied to the result (chaining); each reference is passed as str, as URL(text), "
+        "as a from_parts object, normalize()d, as a navigate() result or with list path_parts (the Spec resolves what the "
+        "object prints); 12 % of the bases carry percent escapes of every depth, 6 % of the cases a percent reference object; 15 % of the bases are rebuilt with URL.from_parts(path_parts without the leading '');  thorough adds every reference path of <= 4 segments over {., .., '', a, b} x 7 base shapes and of 5 segments over {., .., '', a} x 3 base shapes. "
         "non-trivial = ref1 or ref2 has a '.', '..' or empty path segment, or is query-/fragment-only; "
         "distinct = distinct (base, ref1, ref2) hash")
-ASSUMPTIONS = ["texts are free of '%', of ';' '+' in queries, of IPv6/IDNA hosts (quoting/IDNA belong to C06)",
+ASSUMPTIONS = ["'%' only as escapes of ASCII bytes in path/query/fragment; no ';' '+' in queries, no IPv6/IDNA hosts (quoting/IDNA belong to C06)",
                "about 15 % of bases and absolute references have a mixed-case scheme/host; the Spec compares modulo RFC 6.2.2.1 case folding of scheme and host (ASCII)",
                "ports are neither 0 nor the scheme's default in most cases (the model follows to_text when they are)"]
 TRUSTED = ["Model/C07_Model.v is hand-written; tied to boltons.urlutils.URL by the correspondence run",
